@@ -50,3 +50,44 @@ void drv_c09_mpn(int tier, unsigned long seed, const char *extra) {
     }
   }
 }
+
+/* c09_sqcorn: u = s^2 + r with the remainder a CORNER of its range 0..2s instead of 0 / +-1 only: r = B^j and B^j - 1 for every limb position j (a remainder that is
+   exactly a power of the limb base: its low limbs are all zero and the carry of every fix-up step runs off the top), 2^t, s, 2s - 1, 2s; s with its top bit set (the
+   normalised path of mpn_dc_sqrtrem at every recursion level) and without (the shifting wrapper), every n up to 13 root limbs (even and odd splits), then larger.
+   Through mpz_sqrtrem / mpz_sqrt / mpz_perfect_square_p and mpn_sqrtrem with and without a remainder area / mpn_perfect_square_p. */
+void drv_c09_sqcorn(int tier, unsigned long seed, const char *extra) {
+  shard_t sh = shard_parse(extra); long x = 0; int n, kind, j, top, rep;
+  static const int big[] = {16, 17, 24, 32, 33, 48, 64, 65};
+  int nmax = sh.pure ? 2 : 13, nbig = sh.pure ? 0 : (tier ? 8 : 3);
+  for (n = 1; n <= nmax + nbig; n++) for (kind = 0; kind < (sh.pure ? 2 : NKINDS); kind++) for (top = 0; top < 2; top++) {
+    int nl = n <= nmax ? n : big[n - nmax - 1], reps = (nl <= 8 && !sh.pure) ? (tier ? 6 : 3) : 1;
+    if (nl > 13 && kind > 3) continue;
+    x++; if (!MINE(sh, x)) continue;
+    rec_reset("c09_sqcorn", x, seed);
+    for (j = 0; j < 6; j++) callf("mpz_init", j);
+    for (rep = 0; rep < reps; rep++) {
+      int nr = 0, t; struct { int kindr; long arg; } rs[80];
+      callf("drv_rndz", 0, nl, kind, 0);
+      if (top) callf("mpz_setbit", 0, (uint64_t)(64 * nl - 1)); else if (mpz_tstbit(Zp[0], 64 * nl - 1)) callf("mpz_clrbit", 0, (uint64_t)(64 * nl - 1));
+      if (SIZ(Zp[0]) == 0) callf("mpz_set_ui", 0, (uint64_t)3);
+      callf("mpz_mul", 1, 0, 0);                                   /* s^2 */
+      for (j = 0; j <= nl; j++) { if (nl > 13 && j > 2 && j < nl - 2 && j != nl / 2) continue; rs[nr].kindr = 0; rs[nr++].arg = 64L * j; rs[nr].kindr = 1; rs[nr++].arg = 64L * j; }       /* B^j, B^j - 1 */
+      rs[nr].kindr = 0; rs[nr++].arg = 64L * nl - 1; rs[nr].kindr = 0; rs[nr++].arg = 32L * nl; rs[nr].kindr = 0; rs[nr++].arg = 63;
+      rs[nr].kindr = 2; rs[nr++].arg = 0; rs[nr].kindr = 3; rs[nr++].arg = 0; rs[nr].kindr = 4; rs[nr++].arg = 0;                                   /* s, 2s - 1, 2s */
+      for (t = 0; t < nr; t++) { mp_size_t an, rn; mp_ptr a, s, r;
+        if (rs[t].kindr <= 1) { callf("mpz_set_ui", 2, (uint64_t)0); callf("mpz_setbit", 2, (uint64_t)rs[t].arg); if (rs[t].kindr == 1) callf("mpz_sub_ui", 2, 2, (uint64_t)1); }
+        else if (rs[t].kindr == 2) callf("mpz_set", 2, 0); else { callf("mpz_mul_2exp", 2, 0, (uint64_t)1); if (rs[t].kindr == 3) callf("mpz_sub_ui", 2, 2, (uint64_t)1); }
+        callf("mpz_mul_2exp", 5, 0, (uint64_t)1); if (mpz_cmp(Zp[2], Zp[5]) > 0) continue;          /* r <= 2s, otherwise the root is not s (still a valid operand, but not this class) */
+        callf("mpz_add", 3, 1, 2);                                  /* u = s^2 + r */
+        shrinkz(4); shrinkz(5); callf("mpz_sqrtrem", 4, 5, 3); shrinkz(4); callf("mpz_sqrt", 4, 3); callf("mpz_perfect_square_p", 3);
+        an = ABSIZ(Zp[3]); a = gb_get(0, an, t & 1); MPN_COPY(a, PTR(Zp[3]), an); s = gb_get(1, (an + 1) / 2, 1); r = gb_get(2, an, 1);
+        fn_begin("mpn_sqrtrem"); fn_in_limbs("a", a, an); fn_in_int("n", an); fn_mid(); gb_fill(s, (an + 1) / 2); gb_fill(r, an); rn = mpn_sqrtrem(s, r, a, an);
+        fn_out_limbs("s", s, (an + 1) / 2); fn_out_limbs("r", r, rn); fn_out_int("rn", rn); fn_end();
+        fn_begin("mpn_sqrtrem_null"); fn_in_limbs("a", a, an); fn_in_int("n", an); fn_mid(); gb_fill(s, (an + 1) / 2); rn = mpn_sqrtrem(s, NULL, a, an); fn_out_limbs("s", s, (an + 1) / 2); fn_out_int("rn", rn); fn_end();
+        fn_begin("mpn_perfect_square_p"); fn_in_limbs("a", a, an); fn_in_int("n", an); fn_mid(); fn_out_int("ret", mpn_perfect_square_p(a, an)); fn_end();
+      }
+    }
+    for (j = 0; j < 6; j++) callf("mpz_clear", j);
+    rec_quiesce();
+  }
+}
